@@ -18,7 +18,7 @@ import (
 )
 
 type c11Op struct {
-	Kind string `json:"k"` // "put" (fresh value), "alias" (store the value currently under key From also under Key), "del", "get"
+	Kind string `json:"k"` // "put" (fresh value), "reput" (new value with the stored one's session identifier), "alias" (store the value currently under key From also under Key), "del", "get"
 	Key  string `json:"key"`
 	From string `json:"from,omitempty"`
 }
@@ -128,6 +128,22 @@ func c11Run(c c11Case) (sig, msg string, evictions, deletes int) {
 			}
 			cache.Put(op.Key, v)
 			model.put(op.Key, v)
+		case "reput":
+			// a new state with the session identifier of the one now stored under that key (a server whose
+			// randomness repeats issues the same identifier again), everything else different
+			i := model.find(op.Key)
+			if i < 0 || model.order[i].val == nil {
+				continue
+			}
+			fresh++
+			old := model.order[i].val
+			v := &SessionState{sessionId: append([]byte(nil), old.sessionId...), vers: VersionTLCP, cipherSuite: vfSuites[(fresh+1)%len(vfSuites)], masterSecret: c11Secret(fresh)}
+			if v.cipherSuite == old.cipherSuite {
+				v.cipherSuite = vfSuites[(fresh+2)%len(vfSuites)]
+			}
+			origSecret[v] = c11Secret(fresh)
+			cache.Put(op.Key, v)
+			model.put(op.Key, v)
 		case "alias":
 			i := model.find(op.From)
 			if i < 0 {
@@ -228,13 +244,13 @@ func c11KnownClass(sig string, c c11Case) string {
 }
 
 func TestVF_C11_Model(t *testing.T) {
-	rec := vfRec("C11", "C11ab-lru-model", "operation sequences over keys {a..e,\"\"} x {put fresh, alias existing value under another key, delete (put nil), get} against a list-based LRU model; exhaustive up to a depth bound for capacities 1..4, then rapid long sequences for capacities up to 64; non-trivial = sequence contains an eviction or an effective delete")
+	rec := vfRec("C11", "C11ab-lru-model", "operation sequences over keys {a..e,\"\"} x {put fresh, put a new state that carries the session identifier of the one stored under that key, alias existing value under another key, delete (put nil), get} against a list-based LRU model; exhaustive up to a depth bound for capacities 1..4, then rapid long sequences for capacities up to 64; non-trivial = sequence contains an eviction or an effective delete")
 	keys := []string{"a", "b", "c", "d", "e"}
 	var alphabet []c11Op
 	for _, k := range keys[:4] {
 		alphabet = append(alphabet, c11Op{Kind: "put", Key: k}, c11Op{Kind: "del", Key: k}, c11Op{Kind: "get", Key: k})
 	}
-	alphabet = append(alphabet, c11Op{Kind: "get", Key: ""}, c11Op{Kind: "alias", Key: "e", From: "a"}, c11Op{Kind: "alias", Key: "b", From: "a"})
+	alphabet = append(alphabet, c11Op{Kind: "get", Key: ""}, c11Op{Kind: "alias", Key: "e", From: "a"}, c11Op{Kind: "alias", Key: "b", From: "a"}, c11Op{Kind: "reput", Key: "a"})
 	depth := 4
 	if vfThorough() {
 		depth = 5
@@ -290,7 +306,7 @@ func TestVF_C11_Model(t *testing.T) {
 	rec.SetExhaustive(false, fmt.Sprintf("exhaustive part: %d sequences (alphabet %d, depth<=%d, capacities 1..4); random part sampled", total, len(alphabet), depth))
 	// random long sequences
 	opGen := rapid.Custom(func(t *rapid.T) c11Op {
-		kind := rapid.SampledFrom([]string{"put", "put", "get", "get", "del", "alias"}).Draw(t, "kind")
+		kind := rapid.SampledFrom([]string{"put", "put", "get", "get", "del", "alias", "reput"}).Draw(t, "kind")
 		nk := rapid.IntRange(0, 11).Draw(t, "key")
 		key := fmt.Sprintf("k%d", nk)
 		op := c11Op{Kind: kind, Key: key}
